@@ -214,7 +214,9 @@ Section Pass.
         rewrite nth_snoc_lt by lia. apply B7. exact Hq2.
       + subst q p. rewrite <- B2. apply nth_snoc_eq.
     - intros i Hi. destruct (Nat.eq_dec i k) as [E|E].
-      + subst i. exists k. rewrite <- B2 at 1. rewrite nth_snoc_eq. rewrite nth_error_snoc_eq.
+      + subst i. exists k.
+        assert (En : nth k (ow ++ [length pos]) 0 = length pos) by (rewrite <- B2; apply nth_snoc_eq).
+        rewrite En, nth_error_snoc_eq.
         split; [reflexivity|]. split; [lia|left; reflexivity].
       + assert (Hi' : i < k) by lia. destruct (B8 i Hi') as [p [P1 [P2 P3]]].
         exists p. rewrite nth_snoc_lt by lia. split; [|split; assumption].
@@ -252,7 +254,9 @@ Section Pass.
       assert (Hp : p < k). { rewrite Forall_forall in B5. apply B5. eapply nth_error_In; eauto. }
       rewrite nth_snoc_lt by lia. apply B7. exact Hq.
     - intros i Hi. destruct (Nat.eq_dec i k) as [E|E].
-      + subst i. exists p0. rewrite <- B2 at 1. rewrite nth_snoc_eq.
+      + subst i. exists p0.
+        assert (En : nth k (ow ++ [o]) 0 = o) by (rewrite <- B2; apply nth_snoc_eq).
+        rewrite En.
         assert (Hp0 : p0 < k). { rewrite Forall_forall in B5. apply B5. eapply nth_error_In; eauto. }
         split; [exact Ho|]. split; [lia|right; split; assumption].
       + assert (Hi' : i < k) by lia. destruct (B8 i Hi') as [p [P1 [P2 P3]]].
